@@ -319,8 +319,18 @@ func ruleMapAssign(c *chk.Ctx) {
 		c.Check(okSplit, "TABLE.lookup", f, "first-separator split", pos, "service and method are separated with "+idiom+" (first '.' only)", "ServiceMap.Assign does not split at the first '.' only ("+idiom+"): names with more than one dot would reach the wrong service or method")
 		// returns nil on the no-separator edge and the missing-service edge; forwards the remainder unmodified
 		nilRet, fwd := 0, false
+		// every value that can be returned: a return's own, or — with one result variable and a
+		// shared exit — each value that flows into it
+		var retVals []ssa.Value
 		for _, r := range ir.Returns(f) {
 			v := ir.ReturnResult(r, 0)
+			if phi, isPhi := v.(*ssa.Phi); isPhi {
+				retVals = append(retVals, phi.Edges...)
+				continue
+			}
+			retVals = append(retVals, v)
+		}
+		for _, v := range retVals {
 			if ir.IsNilConst(v) {
 				nilRet++
 				continue
